@@ -43,7 +43,7 @@ def gen_one(rng, i, tier):
     ts = gen.thresholds(rng, pos, neg, k=6)
     rs = sorted(set([rng.random() for _ in range(3)] + [rng.choice([0.0, 1.0, 0.5, 0.25])]))
     return {"stream": stream, "pos": pos, "neg": neg, "ep": ep, "en": en, "sc": sc, "ec": ec, "ts": ts,
-            "rs": rs, "a": rng.choice([0.5, 2.0, 4.0]), "b": rng.choice([0.0, 1.0, -0.75, 3.5]),
+            "rs": rs, "a": rng.choice([0.5, 2.0, 4.0, 2.0 ** -13, 2.0 ** 10]), "b": rng.choice([0.0, 1.0, -0.75, 3.5]),
             "tiefree": tiefree, "G": rng.choice([1, 2, 3]), "gsalt": rng.randint(0, 10**6)}
 
 
